@@ -8,6 +8,7 @@ import (
 	"github.com/remieven/ysgo/markup"
 	"github.com/remieven/ysgo/verifx/internal/dump"
 	"github.com/remieven/ysgo/verifx/internal/explore"
+	mg "github.com/remieven/ysgo/verifx/internal/markupgen"
 	"github.com/remieven/ysgo/verifx/internal/report"
 	yc "github.com/remieven/ysgo/verifx/internal/yarncore"
 )
@@ -16,7 +17,7 @@ func init() {
 	register(&Check{
 		Meta: report.Meta{
 			Property: "C14",
-			Rule: "P: explicit-state search over one LineParser value: alphabet of about 170 lines (plain, multi-byte, every marker form, typed properties, lines leaving markers open, closers and close-all for them, replacement markers, character prefixes, outer whitespace, and lines failing at every parser stage); transition ParseMarkup(line); " +
+			Rule: "P: explicit-state search over one LineParser value: alphabet of about 135 lines (thorough: plus every line of <=3 items of a constructive alphabet, about 6000 lines) (plain, multi-byte, every marker form, typed properties, lines leaving markers open, closers and close-all for them, replacement markers, character prefixes, outer whitespace, and lines failing at every parser stage); transition ParseMarkup(line); " +
 				"states keyed by a reflective dump of the parser; from every reachable state every line is parsed and its result (text, attributes in order with positions, lengths, source positions and properties, error or not) compared with that of a fresh parser; the search runs to closure or to depth 3 (quick) / 4 (thorough); " +
 				"D: every dialogue in which a marked-up target line is shown after every sequence of <=3 (quick) / 4 (thorough) other lines from a pool including lines whose preparation fails (markup errors, failing expressions), compared with the dialogue showing the target alone; " +
 				"a case is one (history, line) pair; non-trivial = history of length >= 1",
@@ -60,6 +61,31 @@ func c14Lines() []string {
 	return out
 }
 
+// c14GeneratedLines: every line of <=2 items of a small constructive alphabet, closed or not (thorough tier).
+func c14GeneratedLines() []string {
+	var out []string
+	items := []func(l *mg.Line){
+		func(l *mg.Line) { l.Text("a") }, func(l *mg.Line) { l.Text("é ") }, func(l *mg.Line) { l.Text(" ") },
+		func(l *mg.Line) { l.Escape('[') }, func(l *mg.Line) { l.Escape(']') },
+		func(l *mg.Line) { l.Open("a", nil, false) }, func(l *mg.Line) { l.Open("b", []mg.Prop{pInt("n", 3), pQuoted("s", `"x y"`, "x y")}, false) },
+		func(l *mg.Line) { l.Open("a", []mg.Prop{pFloat("a", "1.05", 1.05)}, true) },
+		func(l *mg.Line) { l.Src.WriteString("[/a]") }, func(l *mg.Line) { l.Src.WriteString("[/b]") }, func(l *mg.Line) { l.Src.WriteString("[/]") },
+		func(l *mg.Line) { l.SelfClosing("a", nil) }, func(l *mg.Line) { l.SelfClosing("b", []mg.Prop{pBool("trimwhitespace", "false", false)}) },
+		func(l *mg.Line) { l.Replacement(`[select value=a a="née" /]`, "née") }, func(l *mg.Line) { l.Replacement(`[nomarkup][b]x[/b][/nomarkup]`, "[b]x[/b]") },
+		func(l *mg.Line) { l.Replacement(`[plural value=2 one="%" other="%s"][/plural]`, "2s") },
+		func(l *mg.Line) { l.Src.WriteString("[a n=") }, func(l *mg.Line) { l.Src.WriteString("Bob: ") },
+	}
+	explore.Run(explore.Options{Budget: -1}, func(c *explore.Chooser) {
+		n := 1 + c.Choose(3, "n")
+		l := &mg.Line{}
+		for i := 0; i < n; i++ {
+			items[c.Choose(len(items), "item")](l)
+		}
+		out = append(out, l.Src.String())
+	})
+	return out
+}
+
 func resultString(res *markup.ParseResult, err error, pan any) string {
 	if pan != nil {
 		return fmt.Sprintf("PANIC %v", pan)
@@ -80,6 +106,18 @@ func resultString(res *markup.ParseResult, err error, pan any) string {
 
 func runC14(ctx *report.Ctx) {
 	lines := c14Lines()
+	if !ctx.Quick() {
+		seen := map[string]bool{}
+		for _, l := range lines {
+			seen[l] = true
+		}
+		for _, l := range c14GeneratedLines() {
+			if !seen[l] {
+				seen[l] = true
+				lines = append(lines, l)
+			}
+		}
+	}
 	ctx.Bound("line_alphabet", len(lines))
 	fresh := make([]string, len(lines))
 	for i, l := range lines {
